@@ -210,12 +210,12 @@ package pokerface
 
 //@ func (*game).updatePots(g) (err)
 //@   props C01 C16
-//@   requires WFG(g)
+//@   requires WFG(g) && ALLCHIP(g)
 //@   modifies g.gs.Status.Pots, @POTS
 //@   allocs
 //@   ensures err == nil
 //@   ensures forall k :: 0 <= k && k < len(g.gs.Status.Pots) ==> g.gs.Status.Pots[k] != nil
-//@   loop 1 invariant pot.WFLL(ll)
+//@   loop 1 invariant pot.LLINV(ll) && (forall i :: in(i, ll.contributors) ==> 0 <= i && i <= rangeindex)
 
 //@ pred TABLE(g) = forall i :: 0 <= i && i < len(g.gs.Players) ==> g.gs.Players[i].Wager <= g.gs.Status.CurrentWager
 
